@@ -77,17 +77,19 @@ func fixtureDir() string {
 // ---- case description ----
 
 type c13Case struct {
-	Strategy  string    `json:"strategy"` // whole patch writefile pgp-detached pgp-inline pgp-clearsign msi pe-fixup
-	DestMode  string    `json:"dest"`     // other-absent other-present same
-	HardLink  bool      `json:"hardlink"`
-	RespBreak int       `json:"resp_break"` // >0: the response stream fails after that many bytes (whole/pgp-detached)
-	In        []byte    `json:"-"`
-	Old       []byte    `json:"-"`
-	Result    []byte    `json:"-"` // what the "server" returned
-	Mime      string    `json:"mime"`
-	Desc      string    `json:"desc"`
-	Cli       *signCase `json:"cli,omitempty"`
-	CliKey    string    `json:"cli_key,omitempty"`
+	Strategy string `json:"strategy"` // whole patch writefile pgp-detached pgp-inline pgp-clearsign msi pe-fixup
+	DestMode string `json:"dest"`     // other-absent other-present same
+	HardLink bool   `json:"hardlink"`
+	// the input's name is <output>.tmp-unsigned and its mtime is old
+	InNamedLikeTemp bool      `json:"in_named_like_temp,omitempty"`
+	RespBreak       int       `json:"resp_break"` // >0: the response stream fails after that many bytes (whole/pgp-detached)
+	In              []byte    `json:"-"`
+	Old             []byte    `json:"-"`
+	Result          []byte    `json:"-"` // what the "server" returned
+	Mime            string    `json:"mime"`
+	Desc            string    `json:"desc"`
+	Cli             *signCase `json:"cli,omitempty"`
+	CliKey          string    `json:"cli_key,omitempty"`
 	// Valid, when set, recognises complete new contents that differ in
 	// encoding from the fault-free run's bytes (PGP inline falls back to
 	// partial-length framing when it cannot size the input).
@@ -132,6 +134,11 @@ type c13Outcome struct {
 func c13Paths(root string, c *c13Case) (in, dest, link string) {
 	in = filepath.Join(root, "in.dat")
 	dest = filepath.Join(root, "out.dat")
+	if c.InNamedLikeTemp {
+		// an unsigned file kept next to where the signed one goes, under a
+		// name of its own choosing: out.dat.tmp-unsigned
+		in = dest + ".tmp-unsigned"
+	}
 	if c.DestMode == "same" {
 		dest = in
 	}
@@ -159,6 +166,11 @@ func c13Setup(root string, c *c13Case) {
 	core.ResetDir(root)
 	in, dest, link := c13Paths(root, c)
 	must(os.WriteFile(in, c.In, 0o644))
+	if c.InNamedLikeTemp {
+		// it has been lying there for a while (the bubble's clock reads 2000-01-01)
+		old := time.Date(1999, 6, 1, 0, 0, 0, 0, time.UTC)
+		must(os.Chtimes(in, old, old))
+	}
 	if c.DestMode == "other-present" {
 		must(os.WriteFile(dest, c.Old, 0o600))
 	}
@@ -242,7 +254,7 @@ func c13ExecIn(root string, c *c13Case, plan core.FSPlan, in, dest, link string)
 	}
 	ents, _ := os.ReadDir(root)
 	for _, e := range ents {
-		if strings.Contains(e.Name(), ".tmp") {
+		if strings.Contains(e.Name(), ".tmp") && e.Name() != filepath.Base(in) {
 			out.temps = append(out.temps, e.Name())
 		}
 	}
@@ -481,6 +493,9 @@ func c13Gen(r *core.Run) *c13Case {
 			c.HardLink = true // in-place append would be exempt
 		}
 	}
+	if (c.DestMode == "other-present" || c.DestMode == "other-absent") && c.Strategy != "writefile" && t.Chance(1, 8, "input-named-like-a-temp") {
+		c.InNamedLikeTemp = true
+	}
 	if c.DestMode == "other-present" || c.DestMode == "symlink" {
 		c.Old = t.Bytes(sizes[t.Choose(len(sizes), "oldlen")], "old")
 		if t.Chance(1, 6, "old-empty") {
@@ -544,6 +559,9 @@ func c13Run(r *core.Run) {
 	}
 	if base.fs.Finalizers > 0 {
 		r.Probe("finalizer-suppressed")
+	}
+	if c.InNamedLikeTemp {
+		r.Probe("input-named-like-a-temp")
 	}
 	inPlace := false
 	if c.DestMode == "same" {
